@@ -100,11 +100,15 @@ def reader_sequence(state, buf='packet', cls=None, recv='self'):
                 return p.setters[tn]
         return None
 
-    for ev in state.events:
+    for ev in _dedupe_pops(state.events, buf):
         kind = ev[0]
         ctor, last_ctor = last_ctor, None
         if kind in ('store', 'assign'):
             target, val, line = ev[1], ev[2], ev[3]
+            if ctor is not None and ctor.via == 'pop' and ctor.text in val:
+                # x = buf.pop(0): the octet read and consumed in one call gets its name
+                ctor.kind, ctor.target, ctor.text = 'fixed', target, val
+                continue
             if ctor is not None and (val == ctor.text or (kind == 'assign' and val == target)):
                 # x = Klass(buf) / self.f = Klass(buf): the object the constructor built from the buffer gets its name
                 ctor.target = target
@@ -213,7 +217,13 @@ def reader_sequence(state, buf='packet', cls=None, recv='self'):
             ft, args, kw, line = ev[1], ev[2], ev[3], ev[4]
             allargs = list(args) + list(kw.values())
             base = ft.split('.')[-1]
-            if any(a == buf for a in allargs):
+            if ft == buf + '.pop' and list(args) == ['0'] and not kw:
+                # buf.pop(0): one octet read and consumed at once (a skip unless the next event stores the value)
+                last_ctor = Read('skip', None, '1', '%s.pop(0)' % buf, line, via='pop')
+                reads.append(last_ctor)
+                if aliased:
+                    problems.append(('alias-then-consume', '%s.pop(0) removes an octet from the buffer that %s still aliases' % (buf, aliased[0]), line))
+            elif any(a == buf for a in allargs):
                 if base in ('parse', '_experimental_parse') or ft.startswith('super:'):
                     reads.append(Read('delegate', None, None, '%s(%s)' % (ft, ', '.join(args)), line, via=ft))
                     if aliased:
@@ -236,6 +246,28 @@ def reader_sequence(state, buf='packet', cls=None, recv='self'):
     for r, rs in pending:
         problems.append(Problem('consume-what-you-read', 'read %s is never consumed' % r.text, r.line, r))
     return reads, problems
+
+
+def _dedupe_pops(events, buf):
+    """The interpreter may evaluate an expression more than once (deciding a test, rendering it): a run of buf.pop(0) call events of
+    one source line stands for as many pops as the value stored next mentions (one when nothing is stored)."""
+    out, i, pop = [], 0, buf + '.pop'
+    while i < len(events):
+        e = events[i]
+        if e[0] == 'call' and e[1] == pop and list(e[2]) == ['0']:
+            j = i
+            while j < len(events) and events[j][0] == 'call' and events[j][1] == pop and events[j][4] == e[4]:
+                j += 1
+            nxt = events[j] if j < len(events) else None
+            keep = 1
+            if nxt is not None and nxt[0] in ('store', 'assign') and nxt[3] == e[4]:
+                keep = max(1, nxt[2].count('%s.pop(0)' % buf))
+            out.extend(events[i:i + min(keep, j - i)])
+            i = j
+            continue
+        out.append(e)
+        i += 1
+    return out
 
 
 def _tiling(pending, hi):
